@@ -103,7 +103,24 @@ def g_dist2():
     return m, ["mu_value", "x_value"], ["x_log_prob", "y_value", "_model_log_lik", "_model_log_prob"], [], F, DEPS
 
 
-GRAPHS = {"chain": g_chain, "diamond": g_diamond, "dist": g_dist, "weak": g_weak, "dist2": g_dist2}
+def g_raiser():
+    """a node function that rejects one input value (raises): an assignment whose auto-update raises must still leave a coherent cache"""
+    a, b = Value(1, _name="a"), Value(2, _name="b")
+    g = Calc(counted("g", lambda x: 2 * x + 1), a, _name="g")
+
+    def fc(x, y, z):
+        if x == 13:
+            raise ValueError("rejected input")
+        return x + 3 * y + 0 * z
+    c = Calc(counted("c", fc), a, b, g, _name="c")
+    h = Calc(counted("h", lambda x, y: x - y), c, g, _name="h")
+    m = Model([h], to_float32=False)
+    F = {"g": lambda v: 2 * v["a"] + 1, "c": lambda v: v["a"] + 3 * v["b"], "h": lambda v: v["c"] - v["g"]}
+    DEPS = {"g": ["a"], "c": ["a", "b", "g"], "h": ["c", "g"]}
+    return m, ["a", "b"], ["g", "c", "h"], [], F, DEPS
+
+
+GRAPHS = {"raiser": g_raiser, "chain": g_chain, "diamond": g_diamond, "dist": g_dist, "weak": g_weak, "dist2": g_dist2}
 M, VALUES, CACHING, TRANS, F, DEPS = GRAPHS[GRAPH]()
 ALL = VALUES + CACHING
 # other model-level nodes without distributions inputs (constant totals) are left alone
@@ -318,6 +335,37 @@ def check_update_target(v0: int, v1: int, v2: int, v3: int, s0: int, s1: int, s2
                 return False
             ok = ok & (M.nodes[n].value == val)
     return ok & inv_sym(M) & counts_ok(flags, [])
+
+
+def check_assign_raises(v0: int, v1: int, newval: int) -> bool:
+    """
+    graph `raiser`, auto-update on: assigning input a (a node function rejects a == 13 by raising).  Whether or not the assignment raises, every
+    node that reports itself up to date afterwards holds the from-scratch value for the CURRENT inputs; without an exception nothing is outdated
+    pre: v0 != 13
+    post: _ == True
+    """
+    flags = load([v0, v1], [0, 0, 0], [False, False, False], True)          # from a fully up-to-date state
+    raised = False
+    try:
+        M.nodes["a"].value = newval
+    except Exception:
+        raised = True
+    if raised != (newval == 13):
+        return False
+    cur = {n: M.nodes[n].value for n in VALUES}
+    ref = dict(cur)
+    ok = True
+    for n in CACHING:
+        if not M.nodes[n].outdated:
+            if n == "c" and cur["a"] == 13:
+                return False                      # c cannot be up to date for the rejected input
+        ref[n] = F[n](ref)
+    for n in CACHING:
+        if not M.nodes[n].outdated:
+            ok = ok & (M.nodes[n].value == ref[n])
+        elif not raised:
+            return False
+    return ok
 
 
 TGT2 = int(os.environ.get("TGT2", "-1"))
